@@ -196,9 +196,37 @@ struct lyd_ctx_ext_node {
 };
 
 /**
+ * @brief Numbers of the unresolved items stored in a data parser context.
+ */
+struct lyd_ctx_unres_count {
+    uint32_t node_when;
+    uint32_t node_types;
+    uint32_t meta_types;
+    uint32_t ext_node;
+    uint32_t ext_val;
+};
+
+/**
  * @brief Common part to supplement the specific ::lyd_ctx_free_clb callbacks.
  */
 void lyd_ctx_free(struct lyd_ctx *ctx);
+
+/**
+ * @brief Get the current numbers of the unresolved items stored in a data parser context.
+ *
+ * @param[in] lydctx Data parser context.
+ * @param[out] count Numbers of the stored unresolved items.
+ */
+void lyd_parser_unres_count(const struct lyd_ctx *lydctx, struct lyd_ctx_unres_count *count);
+
+/**
+ * @brief Remove all the unresolved items stored in a data parser context after @p count was learned. Needed if
+ * the parsed data they refer to were freed and parsing continues (::LYD_VALIDATE_MULTI_ERROR).
+ *
+ * @param[in] lydctx Data parser context.
+ * @param[in] count Numbers of the stored unresolved items to keep.
+ */
+void lyd_parser_unres_trim(struct lyd_ctx *lydctx, const struct lyd_ctx_unres_count *count);
 
 /**
  * @brief Parse submodule from YANG data.
